@@ -377,11 +377,15 @@ class PrepassArgLoop(FrameLoop):
     """the argument loop of Program.run's pre-pass: FrameLoop, and every argument whose name is a declared input is cleaned
     by that input's parameter, with the program and the argument's own line (C12: rejection before any execution; C11)"""
 
+    def __init__(self, locals_, cmd_var="command", arg_var="argument"):
+        FrameLoop.__init__(self, locals_)
+        self.cmd_var, self.arg_var = cmd_var, arg_var  # bound by role from the loop header `for <arg> in <cmd>.arguments`
+
     def check(self, eng, pre, st, j, seq, label):
         FrameLoop.check(self, eng, pre, st, j, seq, label)
-        cmd, arg = st.env.get("command"), st.env.get("argument")
+        cmd, arg = st.env.get(self.cmd_var), st.env.get(self.arg_var)
         if not (isinstance(cmd, Sym) and isinstance(arg, Sym)):
-            raise Unsupported("pre-pass loop variables are not `command` / `argument`")
+            raise Unsupported("pre-pass loop variables %s / %s are not bound to a command and an argument" % (self.cmd_var, self.arg_var))
         c, a = Val.ref(cmd.t), Val.ref(arg.t)
         from .dyn import DHAS_, DGET
         did = Val.did(FLD("inputs")(c))
@@ -402,10 +406,13 @@ class PrepassArgLoop(FrameLoop):
 class LeafLoop(S.LoopContract):
     """Inv and Mono since loop entry (commands run, nothing else changes)."""
 
+    def __init__(self, var="command"):
+        self.var = var  # the loop variable, taken from the loop header
+
     def inv(self, I):
         eng, st = I.eng, I.st
         h0 = Heap.of(I.pre)
-        for n in ("command",):
+        for n in (self.var,):
             I.covered.add(n)
             if I.mode == "abstract" and n in st.env:
                 st.env[n] = dyn(smt.fresh("local_" + n, Val))
@@ -422,15 +429,18 @@ class LeafLoop(S.LoopContract):
 class AllLoop(S.LoopContract):
     """final loop: Inv, Mono since loop entry, and the first j commands are finished."""
 
+    def __init__(self, var="command"):
+        self.var = var
+
     def inv(self, I):
         eng, st = I.eng, I.st
         h0 = Heap.of(I.pre)
         owner = eng.hprog_term
         j = I.j
-        I.covered.add("command")
+        I.covered.add(self.var)
         if I.mode == "abstract":
-            if "command" in st.env:
-                st.env["command"] = dyn(smt.fresh("local_command", Val))
+            if self.var in st.env:
+                st.env[self.var] = dyn(smt.fresh("local_command", Val))
             h = Heap.fresh("allloop")
             h.install(st)
             st.assume(z3.And(Inv(eng, h), Mono(eng, h0, h)))
@@ -451,12 +461,15 @@ def register_loops(repo):
     for i, n in enumerate(loops):
         key = (fi.key, "for", i)
         if i in run_loops:
+            var = n.target.id if isinstance(n, ast.For) and isinstance(n.target, ast.Name) else "command"
             if isinstance(n.iter, ast.GeneratorExp):
-                S.LOOPS[key] = LeafLoop()
+                S.LOOPS[key] = LeafLoop(var)
             else:
-                S.LOOPS[key] = AllLoop()
+                S.LOOPS[key] = AllLoop(var)
         elif isinstance(n, ast.For) and isinstance(n.iter, ast.Attribute) and n.iter.attr == "arguments" and run_loops and i < min(run_loops):
-            S.LOOPS[key] = PrepassArgLoop(sorted(assigned_names(n)))
+            if not (isinstance(n.target, ast.Name) and isinstance(n.iter.value, ast.Name)):
+                raise Unsupported("pre-pass argument loop header is not `for <name> in <name>.arguments`")
+            S.LOOPS[key] = PrepassArgLoop(sorted(assigned_names(n)), cmd_var=n.iter.value.id, arg_var=n.target.id)
         else:
             S.LOOPS[key] = FrameLoop(sorted(assigned_names(n)))
     return {"loops": len(loops), "run_loops": run_loops}
